@@ -398,6 +398,10 @@ class Normalizer:
       return any_of(self.term(args[0], env))
     if name in ('numpy.all', 'jax.numpy.all', 'all'):
       return all_of(self.term(args[0], env))
+    if name in ('numpy.allclose', 'jax.numpy.allclose', 'numpy.array_equal', 'jax.numpy.array_equal', 'numpy.array_equiv') \
+        and len(args) >= 2:
+      # all elements equal (allclose: up to a round-off tolerance, which no guard of this code base relies on)
+      return all_of(self.compare(ast.Eq(), self.term(args[0], env), self.term(args[1], env)))
     if name in ('numpy.array', 'numpy.asarray', 'jax.numpy.array', 'list', 'tuple'):
       return self.term(args[0], env) if args else ('tup', ())
     if name in ('numpy.isinf', 'jax.numpy.isinf'):
